@@ -51,13 +51,17 @@ NewStats == [msgs |-> 0, schemas |-> 0, channels |-> 0, atts |-> 0, mds |-> 0, c
 (* TMAX is the rank of 2^64-1 in the time domain of the run *)
 NewWriter(cfg, tmax) ==
   [cfg |-> cfg, tmax |-> tmax, closed |-> FALSE, pos |-> IF cfg.skipMagic THEN 0 ELSE 8, out |-> <<>>,
+   nw |-> IF cfg.skipMagic THEN 0 ELSE 1,                    \* Write calls made on the destination so far
    cbuf |-> <<>>, cpos |-> 0, midx |-> <<>>,                \* midx: Seq of [ch, entries], channels in first-use order of this writer
    curStart |-> tmax, curEnd |-> 0, curCount |-> 0,
    stats |-> NewStats, schemas |-> <<>>, channels |-> <<>>,
    chunkIdx |-> <<>>, attIdx |-> <<>>, mdIdx |-> <<>>,
    dataCrcTo |-> 0, sumCrcFrom |-> 0, sumCrcTo |-> 0, flen |-> 0]
 
-Emit(w, r)    == [w EXCEPT !.out = Append(@, r), !.pos = @ + r.len]
+(* number of Write calls on the destination for one record: prefix + body; chunks: header part + payload;
+   attachments: prefix, fields, the copies of io.Copy (32 KiB buffer), CRC; the footer is written in two parts *)
+SinkWrites(r) == IF r.k = "Attachment" THEN 3 + (r.dsize + 32767) \div 32768 ELSE 2
+Emit(w, r)    == [w EXCEPT !.out = Append(@, r), !.pos = @ + r.len, !.nw = @ + SinkWrites(r)]
 ToChunk(w, r) == [w EXCEPT !.cbuf = Append(@, r), !.cpos = @ + r.len]
 InChunk(w)    == w.cfg.chunked /\ ~w.closed
 
@@ -112,7 +116,7 @@ Flush(w, csize) ==
                    offs |-> [i \in DOMAIN run |-> [ch |-> run[i].ch, off |-> run[i].pos]], milen |-> milen,
                    comp |-> w.cfg.comp, complen |-> CompLen(w.cfg.comp), csize |-> csize, usize |-> w.cpos]
            hasMsgs == st0 # 0 \/ en0 # 0 \/ run # <<>>
-       IN [w EXCEPT !.out = @ \o <<chunk>> \o run, !.pos = @ + chunk.len + milen,
+       IN [w EXCEPT !.out = @ \o <<chunk>> \o run, !.pos = @ + chunk.len + milen, !.nw = @ + 2 + 2 * Len(run),
                     !.chunkIdx = Append(@, cix),
                     !.stats = [ChunkRange(@, st0, en0, hasMsgs) EXCEPT !.chunks = @ + 1],
                     !.cbuf = <<>>, !.cpos = 0, !.midx = [i \in DOMAIN @ |-> [@[i] EXCEPT !.entries = <<>>]],
@@ -180,7 +184,7 @@ Close(w, csize) ==
       sos == IF ~w.cfg.skipSumOffsets /\ g6.offs # <<>> THEN g6.w.pos ELSE 0
       w7 == IF w.cfg.skipSumOffsets THEN g6.w ELSE EmitAll(g6.w, g6.offs, MkSummaryOffset)
       w8 == [Emit(w7, MkFooter(w7.pos, ss, sos, ~w.cfg.crc)) EXCEPT !.sumCrcTo = w7.pos + 1 + 8 + 8 + 8]
-  IN [w8 EXCEPT !.pos = @ + 8, !.flen = w8.pos + 8]
+  IN [w8 EXCEPT !.pos = @ + 8, !.flen = w8.pos + 8, !.nw = @ + 1]
 
 FileOf(w) ==
   [lead |-> ~w.cfg.skipMagic, trail |-> TRUE, trailing |-> 0, flen |-> w.flen, recs |-> w.out,
@@ -189,5 +193,5 @@ FileOf(w) ==
 (* projection compared with the real writer's public state after every call *)
 Proj(w) == [off |-> w.pos, msgs |-> w.stats.msgs, schemas |-> w.stats.schemas, channels |-> w.stats.channels,
             atts |-> w.stats.atts, mds |-> w.stats.mds, chunks |-> w.stats.chunks, start |-> w.stats.start, end |-> w.stats.end,
-            nci |-> Len(w.chunkIdx), nai |-> Len(w.attIdx), nmi |-> Len(w.mdIdx)]
+            nci |-> Len(w.chunkIdx), nai |-> Len(w.attIdx), nmi |-> Len(w.mdIdx), nw |-> w.nw]
 ==========================================================================
